@@ -95,7 +95,7 @@ register("C13", "props.c13", ["ValidaProofs.C13", "ValidaProofs.C13Schema"], 600
          "one case = a schema of 0-4 rules in the serialisable fragment (C11 conditions, C12 paths, optional str->int / str->bool cast) "
          "through to_json_like, JSON text, from_json_like, compared by equality and by validating three documents; distinct = "
          "(#rules, casts?, longest path); non-trivial = at least one rule")
-register("C14", "props.c14", ["ValidaProofs.C14", "ValidaProofs.C14Behave"], 2000, 50000,
+register("C14", "props.c14", ["ValidaProofs.C14", "ValidaProofs.C14Behave", "ValidaProofs.C14Paths"], 2000, 50000,
          "pairs (x, y) with y = x rebuilt, commuted or with one atom changed (argument, callable, class, operator, key, index, part "
          "kind, label, cast) for conditions, paths and rules, plus transitivity triples; distinct = (level, mutation kind); "
          "non-trivial = == returned")
